@@ -30,6 +30,8 @@ CONSTANTS GridLens,   \* set of grids, each a sequence of value-list lengths, e.
           Modes,      \* set of modes: <<"all">> or <<"single", index>>
           MaxSim,     \* number of simulate() calls on the same runner
           Exhaustive, \* maximal NV for which all per-variation plan assignments are enumerated
+          ErrAt,      \* set of <<variation, attempt>>: the user's iteration raises an (arithmetic) error there; simulate()
+                      \* must let it out - nothing is skipped over, no result list is left one short
           Dev         \* [FirstRepSkipEscapes, SkipCounted, GuardLE, OrderByInsertion : BOOLEAN]
 
 VARIABLES cfg, phase, v, rep, att, skips, merged, calls, tests, runned, stored, nsim, rmax
@@ -82,7 +84,9 @@ SimStart ==
 FirstRep ==
   /\ phase = "first"
   /\ att' = att + 1
-  /\ IF att + 1 \in Plan.skip
+  /\ IF <<v, att + 1>> \in ErrAt
+       THEN /\ calls' = Append(calls, <<v, att + 1, "raise">>) /\ phase' = "raised" /\ UNCHANGED <<skips, rep, merged>>
+     ELSE IF att + 1 \in Plan.skip
        THEN /\ calls' = Append(calls, <<v, att + 1, "skip">>)
             /\ IF Dev.FirstRepSkipEscapes
                  THEN phase' = "escaped" /\ UNCHANGED <<skips, rep, merged>>
@@ -103,14 +107,16 @@ Test ==
 Body ==
   /\ phase = "body"
   /\ att' = att + 1
-  /\ IF att + 1 \in Plan.skip
-       THEN /\ calls' = Append(calls, <<v, att + 1, "skip">>)
-            /\ skips' = skips + 1
-            /\ IF Dev.SkipCounted THEN rep' = rep + 1 ELSE UNCHANGED rep
-            /\ UNCHANGED merged
-       ELSE /\ calls' = Append(calls, <<v, att + 1, "ok">>)
-            /\ merged' = merged \cup {att + 1} /\ rep' = rep + 1 /\ UNCHANGED skips
-  /\ phase' = "test"
+  /\ IF <<v, att + 1>> \in ErrAt
+       THEN /\ calls' = Append(calls, <<v, att + 1, "raise">>) /\ phase' = "raised" /\ UNCHANGED <<skips, rep, merged>>
+     ELSE /\ phase' = "test"
+          /\ IF att + 1 \in Plan.skip
+               THEN /\ calls' = Append(calls, <<v, att + 1, "skip">>)
+                    /\ skips' = skips + 1
+                    /\ IF Dev.SkipCounted THEN rep' = rep + 1 ELSE UNCHANGED rep
+                    /\ UNCHANGED merged
+               ELSE /\ calls' = Append(calls, <<v, att + 1, "ok">>)
+                    /\ merged' = merged \cup {att + 1} /\ rep' = rep + 1 /\ UNCHANGED skips
   /\ UNCHANGED <<cfg, v, tests, runned, stored, nsim, rmax>>
 
 VarEnd ==
@@ -144,7 +150,7 @@ Complete == phase = "done" =>
               /\ \A i \in 1..Len(stored) : /\ stored[i].v = (IF Single THEN cfg.mode[2] ELSE i)
                                            /\ runned[i] = Cardinality(stored[i].merged)
 \* calls are grouped by variation, in increasing variation order, attempts numbered 1,2,3...
-IsIter(c) == c[3] \in {"ok", "skip"}
+IsIter(c) == c[3] \in {"ok", "skip", "raise"}
 Iters == SelectSeq(calls, IsIter)
 CallOrder == \A i \in 1..(Len(Iters) - 1) :
                \/ (Iters[i + 1][1] = Iters[i][1] /\ Iters[i + 1][2] = Iters[i][2] + 1)
@@ -156,7 +162,7 @@ HookOrder == \A i \in 1..Len(calls) : IsIter(calls[i]) =>
 
 (* ------------------------------ emission ------------------------------------------------- *)
 \* one summary per complete simulate() call (deterministic chain)
-Emit == (phase' \in {"done", "escaped"} /\ phase # phase') =>
+Emit == (phase' \in {"done", "escaped", "raised"} /\ phase # phase') =>
            EmitCase([cfg |-> [lens |-> cfg.lens, repmax |-> cfg.repmax, repmax2 |-> cfg.repmax2, mode |-> cfg.mode,
                               plan |-> [i \in DOMAIN cfg.plan |-> [kg |-> cfg.plan[i].kg, skip |-> cfg.plan[i].skip]]],
                      grid |-> GridOf(cfg.lens), combos |-> Combos(GridOf(cfg.lens)),
